@@ -80,5 +80,5 @@ CmpView == <<[gs EXCEPT !.last = NULL, !.result = (gs.result # NULL),
 PropView == <<[gs EXCEPT !.last = NULL, !.P = [i \in Seats(gs) |-> [gs.P[i] EXCEPT !.did = "", !.vpip = FALSE]]], h>>
 
 StateOK == FailedState(gs, h, Props) = {}
-StepOK == [][out'.op # "new" => FailedStep(gs, gs', out', h', Props) = {}]_vars
+StepOK == [][out'.op # "new" => FailedStep(gs, gs', out', h, h', Props) = {}]_vars
 =============================================================================
